@@ -5,7 +5,7 @@ import "testing"
 func extraEngineFor(prop string, t *testing.T) Engine {
 	switch prop {
 	case "C07":
-		return linEngine{t}
+		return linEngine{t: t}
 	case "C05":
 		return multiEngine{engines: map[string]Engine{"compact": compactEngine{t}, "crash": crashEngine{}}, order: []string{"compact", "crash"}, weights: []int{3, 1}}
 	case "C10":
@@ -13,7 +13,12 @@ func extraEngineFor(prop string, t *testing.T) Engine {
 	case "C11":
 		return multiEngine{engines: map[string]Engine{"scan": scanEngine{t}, "seq": seqEngine{}}, order: []string{"scan", "seq"}, weights: []int{3, 1}}
 	case "C15":
-		return spaceEngine{}
+		return multiEngine{engines: map[string]Engine{"space": spaceEngine{}, "xfs": xfsEngine{"C15"}}, order: []string{"space", "xfs"}, weights: []int{4, 1}}
+	case "C14":
+		return multiEngine{engines: map[string]Engine{"retain": seqEngine{retainMode: true}, "xfs": xfsEngine{"C14"}, "lin": linEngine{t: t, poison: true}},
+			order: []string{"retain", "xfs", "lin"}, weights: []int{5, 3, 2}}
+	case "C17":
+		return xfsEngine{"C17"}
 	case "C12":
 		return backupEngine{t}
 	}
